@@ -119,8 +119,13 @@ def rule_table(prog):
     res.notes.append("named variants: %d, variants: %d, arms: %d" % (len(named), len(variants), len(seen)))
     if len(named) < 150:
         res.viol("named/census", f.loc, "only %d named OsCode variants found in the name tables (expected >= 150)" % len(named))
+    # ... and so does every other variant below the highest decodable code: only the trailing block of padding
+    # variants (KEY_749.. up to the row width) may lack an arm
+    # ... and so does every other variant that stands for a real key: only placeholder variants, whose name is just
+    # their number (KEY_749 ..), may lack an arm
     for v, d in variants.items():
-        if v not in seen and v in named:
+        placeholder = v == "KEY_%d" % d
+        if v not in seen and (v in named or not placeholder):
             res.viol("missing/%s" % v, f.loc, "OsCode::%s (=%d) has no arm in from_u16_linux: the key cannot come in from the OS" % (v, d))
     # as_u16_linux: discriminant cast only
     g = prog.fn("kanata_parser::keys::OsCode::as_u16_linux")
